@@ -23,7 +23,7 @@ def vhdxCmd (st : St) : List String → String
     match align.toNat?, nids.toNat? with
     | some a, some k =>
       match vhdxChain st (rest.take k) with
-      | .ok (some v) => runStream v.read v.size a (rest.drop k)
+      | .ok (some v) => runStreamSec v.read (some (fun s c => v.readSectors c s c)) v.size a (rest.drop k)
       | .ok none => "bad-args"
       | .error e => s!"err {e}"
     | _, _ => "bad-args"
